@@ -1,6 +1,5 @@
-use super::{IResult, LocatedSpan};
+use super::{tag_no_case, IResult, LocatedSpan};
 use nom::branch::alt;
-use nom::bytes::complete::tag_no_case;
 use nom::combinator::map;
 use strum::{EnumIter, EnumString, EnumVariantNames};
 
